@@ -150,3 +150,29 @@ def is_env_crash(exc):
         return False
     last = tb[-1].filename
     return "site-packages" in last and "/pyhms/" not in last
+
+
+# ------------------------------------------------------------------ process pool
+def n_workers():
+    try:
+        n = int(os.environ.get("VERIF_JOBS", "0"))
+    except ValueError:
+        n = 0
+    if n <= 0:
+        n = min(16, os.cpu_count() or 1)
+    return max(1, n)
+
+
+def pmap(fn, items, chunksize=1):
+    """order-preserving map over a fork pool (results are independent of scheduling: every item carries
+    all the randomness it needs).  `fn` must be a module-level function returning picklable data.
+    VERIF_JOBS=1 runs in-process."""
+    items = list(items)
+    n = n_workers()
+    if n == 1 or len(items) < 4:
+        return [fn(x) for x in items]
+    import multiprocessing as mp
+
+    ctx = mp.get_context("fork")
+    with ctx.Pool(processes=min(n, len(items))) as pool:
+        return pool.map(fn, items, chunksize=chunksize)
